@@ -177,6 +177,7 @@ def chunks(tier, seed):
     B = 40
     for i in range(0, len(keys), B):
         out.append({"kind": "hist", "keys": keys[i:i + B]})
+        out.append({"kind": "cross", "keys": keys[i:i + B]})
     seedkeys = [k for k in keys if k[2] is None]
     if tier == "quick":
         seedkeys = [k for k in seedkeys if not k[0].startswith("term:") or k[0] in (
@@ -194,7 +195,7 @@ def chunks(tier, seed):
         if tier == "thorough" or i % 6 == 0:  # the line-by-line write monitor is evidence (write set), not an oracle
             out.append({"kind": "writemon", "tier": tier, "index": i})
     # long work units first (the pool hands them out in order): better load balance, same enumeration
-    rank = {"hashseed": 0, "sched": 1, "writemon": 2, "setorder": 3, "hist": 4, "pairs": 5}
+    rank = {"hashseed": 0, "sched": 1, "writemon": 2, "setorder": 3, "hist": 4, "cross": 5, "pairs": 6}
     out.sort(key=lambda c: rank[c["kind"]])
     return out
 
@@ -415,8 +416,27 @@ def run_sched(case, res):
     try:
         n, maxp, capped = sched.explore(make, bound, check, opcodes=case.get("opcodes", False),
                                         max_exec=case.get("max_exec", 60000))
-    except sched.Divergence as e:
-        raise RuntimeError("scheduler divergence (harness error): %s" % e)
+    except sched.Divergence:
+        # The same schedule prefix met different scheduling points: the library's execution path depends on something
+        # other than the object and the schedule, i.e. on state kept outside the rendered object (a cache).  Warm that
+        # state up, drop dead objects and explore again; if the path still is not reproducible the exploration of this
+        # object is reported as not done (evidence: sched_divergence) - the verdict on such state is the cross-object and
+        # history phases' business, and a crash here would hide their findings.
+        import gc
+
+        outcomes.clear()
+        del bad[:]
+        for r in ops:
+            ROPS[r](build(key))
+        gc.collect()
+        try:
+            n, maxp, capped = sched.explore(make, bound, check, opcodes=case.get("opcodes", False),
+                                            max_exec=case.get("max_exec", 60000))
+        except sched.Divergence as e:
+            res.extra["sched_divergence"] = res.extra.get("sched_divergence", 0) + 1
+            res.extra.setdefault("sched_divergence_objects", set()).add(json.dumps(key))
+            res.warnings.append("schedule exploration not reproducible for %s: %s" % (json.dumps(key), e))
+            return
     res.transitions += n * len(ops)
     res.extra["schedules"] = n
     res.extra["sched_points_max"] = maxp
@@ -610,11 +630,79 @@ def run_writemon(case, res):
         m for m in ("time", "random", "os", "secrets", "threading") if any(m in vars(M) for M in zoo.live_modules()))
 
 
+_CROSS_OPS = None
+
+
+def _cross_render(keys, order):
+    """build every object of the batch, keep all of them alive, render them in the given order"""
+    global _CROSS_OPS
+    if _CROSS_OPS is None:
+        _CROSS_OPS = [r for r in RNAMES if r.startswith(("i:", "p:")) or r in ("str", "gps")]
+    live = []
+    for k in keys:
+        o = build(k)
+        if o is not None and hasattr(o, "get_sql"):
+            live.append((json.dumps(k), o))
+    out = {}
+    for ks, o in (live if order == "forward" else live[::-1]):
+        out[ks] = [repr(ROPS[r](o)) for r in _CROSS_OPS]
+    return out, live
+
+
+def run_cross(case, res):
+    """Renders of *different* objects must not influence each other: a batch of corpus objects (a seed and its
+    successors: equal-looking statements that differ in one clause) is built, kept alive and rendered in forward order
+    in one process and in reverse order in another (forked before anything of the batch exists).  Any cache or scratch
+    state outside the rendered object that is keyed by something coarser than the object (an `__eq__`/`__hash__` that
+    ignores clauses, a rendered string, ...) makes the two orders disagree."""
+    import gc
+    import pickle
+
+    keys = case["keys"]
+    rfd, wfd = os.pipe()
+    pid = os.fork()
+    if pid == 0:
+        code = 0
+        try:
+            os.close(rfd)
+            out, live = _cross_render(keys, "reverse")
+            with os.fdopen(wfd, "wb") as f:
+                pickle.dump({k: [h64(x) for x in v] for k, v in out.items()}, f)
+        except BaseException:
+            code = 3
+        os._exit(code)
+    os.close(wfd)
+    with os.fdopen(rfd, "rb") as f:
+        data = f.read()
+    _, status = os.waitpid(pid, 0)
+    if status != 0 or not data:
+        raise RuntimeError("cross-object child failed (status %r)" % status)
+    rev = pickle.loads(data)
+    fwd, live = _cross_render(keys, "forward")
+    res.nontrivial = 1 if len(live) > 1 else 0
+    for ks, o in live:
+        res.transitions += 2 * len(_CROSS_OPS)
+        a = [h64(x) for x in fwd[ks]]
+        b = rev.get(ks)
+        if a != b:
+            i = next((i for i in range(len(a)) if b is None or a[i] != b[i]), 0)
+            res.violate("C02|%s|%s|cross-object" % (_tname(o), opclass(_CROSS_OPS[i])),
+                        "the render of an object depends on which other live objects were rendered before it "
+                        "(forward vs reverse order over a batch of corpus objects)", key=json.loads(ks), op=_CROSS_OPS[i],
+                        forward=fwd[ks][i], batch=[json.loads(k) for k, _ in live][:12])
+    res.states.append(h64(repr(sorted(fwd))))
+    res.outcomes.extend(h64(repr(v)) for v in fwd.values())
+    del live
+    gc.collect()
+
+
 def run_case(case):
     res = Result()
     k = case["kind"]
     if k == "hist":
         run_hist(case, res)
+    elif k == "cross":
+        run_cross(case, res)
     elif k == "pairs":
         run_pairs(case, res)
     elif k == "sched":
